@@ -662,6 +662,30 @@ def verify_replay_fresh(path, cls):
     return p.returncode == 1 and ("class=%s" % cls) in p.stdout, p.stdout[-2000:]
 
 
+def _accept_other_class(path, txt):
+    import re
+    m = re.search(r"^replay: different violation class=(\S+)(.*)$", txt or "",
+                  re.M)
+    if not m or "open known finding" in m.group(2):
+        return False, path, txt
+    actual = m.group(1)
+    try:
+        with open(path) as f:
+            doc = json.load(f)
+        doc["violation"]["first_seen_as"] = doc["violation"].get("cls")
+        doc["violation"]["cls"] = actual
+        with open(path, "w") as f:
+            json.dump(doc, f)
+        ok, txt2 = verify_replay_fresh(path, actual)
+    except Exception:
+        traceback.print_exc()
+        return False, path, txt
+    if ok:
+        print("  (in a fresh interpreter the replay file shows the violation "
+              "as class %s)" % actual)
+    return ok, path, txt2 if not ok else txt
+
+
 # --------------------------------------------------------------- evidence --
 
 def write_evidence(mod, tier, seed, total, extra=None, violations=0):
@@ -805,6 +829,13 @@ def run_check(mod, tier, seed):
                         path = write_replay(mod, tier, seed, v, multi, False,
                                             ev2)
         print("  " + v["violation"]["msg"].replace("\n", "\n  "))
+        if not ok:
+            # the fresh interpreter may meet another violation of the same
+            # property first (a defect in process-global state shows up
+            # differently in a process with a different history); that is
+            # still a reproducible violation: record it under the class the
+            # replay file actually produces
+            ok, path, txt = _accept_other_class(path, txt)
         if not ok:
             print("HARNESS-ERROR property=%s: violation did not replay in a "
                   "fresh interpreter:\n%s" % (mod.ID, txt))
